@@ -39,6 +39,7 @@ def run(chk: Check) -> None:
     run_sqlite_write(chk, ix)
     run_late_blockers_surface(chk, ix)
     run_snapshot_last(chk, ix)
+    run_sqlite_failures_are_handled_ones(chk, ix)
 
     # ---------------- R04.1
     r1 = chk.rule("R04.1", "file store publishes atomically: write to a fresh temporary, os.replace onto the final name, OSError => return False; no other writer of cache records", floor=3)
@@ -691,3 +692,45 @@ def run_snapshot_last(chk: Check, ix) -> None:
     from .c02 import snapshot_written_after_processing
     r10 = chk.rule("R04.10", "the plugins snapshot vouches for every module record of the cache directory (a record is trusted when the stored snapshot equals the current plugins). A run that is killed must not leave a snapshot that vouches for records it has not rewritten yet, so dispatch() writes it only after process_graph, on every path (the R02.15 query, here for kill points instead of blocking errors)", floor=1)
     snapshot_written_after_processing(r10, ix)
+
+
+def run_sqlite_failures_are_handled_ones(chk: Check, ix) -> None:
+    """R04.11: a failing sqlite statement surfaces as what the callers of the store handle."""
+    r11 = chk.rule("R04.11", "build.py handles a failed cache-store operation through the file store's conventions: write() returns False, everything else raises an OSError (`except OSError` around remove / read / getmtime). sqlite3.OperationalError (database locked, read-only, disk full) is not an OSError, so every SqliteMetadataStore method of the MetadataStore interface that executes a *modifying* statement (INSERT / DELETE / UPDATE / REPLACE) does so inside a `try` whose handler names sqlite3.OperationalError (or a base of it) and returns the failure value or raises an OSError", floor=2)
+    sq = ix.cls("mypy.metastore.SqliteMetadataStore")
+    base = ix.cls(STORE)
+    n = 0
+    for name, m in sorted(sq.methods.items()):
+        if name not in base.methods:
+            continue
+        par = m.module.parents()
+        for c in ast.walk(m.node):
+            if not (isinstance(c, ast.Call) and call_name(c) == "execute" and c.args and isinstance(c.args[0], ast.Constant) and isinstance(c.args[0].value, str)):
+                continue
+            verb = c.args[0].value.split()[0].upper() if c.args[0].value.split() else ""
+            if verb not in ("INSERT", "DELETE", "UPDATE", "REPLACE"):
+                continue
+            n += 1
+            key = f"SqliteMetadataStore.{name}: a failing {verb} is reported the way the file store reports failures"
+            handled = None
+            p = c
+            while p is not m.node:
+                child, p = p, par[p]
+                if isinstance(p, ast.Try) and child in p.body:
+                    for h in p.handlers:
+                        names = [norm(h.type)] if h.type is not None and not isinstance(h.type, ast.Tuple) else [norm(e) for e in (h.type.elts if h.type is not None else [])]
+                        if h.type is None or any(t in ("sqlite3.OperationalError", "sqlite3.DatabaseError", "sqlite3.Error", "Exception") for t in names):
+                            handled = h
+                    if handled:
+                        break
+            if handled is None:
+                r11.violation(key, m.loc(c), f"`{c.args[0].value[:60]}` is executed outside any handler for sqlite3.OperationalError: with a locked or read-only database the exception passes the callers' `except OSError` (build.invalidate_cache_meta_ex, delete_cache) and ends the run with an internal error where the file store's failure is handled")
+                continue
+            outs = [x for st in handled.body for x in ast.walk(st) if isinstance(x, (ast.Return, ast.Raise))]
+            good = any((isinstance(x, ast.Return) and isinstance(x.value, ast.Constant) and x.value.value is False) or (isinstance(x, ast.Raise) and x.exc is not None and call_name(x.exc) in ("OSError", "FileNotFoundError", "PermissionError") if isinstance(x, ast.Raise) and isinstance(x.exc, ast.Call) else False) for x in outs)
+            if good:
+                r11.ok(key, m.loc(c))
+            else:
+                r11.violation(key, m.loc(handled), "the handler neither returns False nor raises an OSError: the failure is swallowed (the caller believes the record was stored / removed) or re-raised as a type the callers do not handle")
+    if n < 2:
+        raise AnalysisError(f"SqliteMetadataStore: {n} modifying statements found in interface methods (expected write and remove)")
